@@ -230,6 +230,33 @@ theorem sigmoid_range (x : ℝ) : 0 ≤ _sigmoid x ∧ _sigmoid x ≤ 1 := by
 theorem sigmoid_values : _sigmoid (0:ℝ) = 0 ∧ _sigmoid (1:ℝ) = 1 ∧ _sigmoid (1/2 : ℝ) = 1/2 := by
   refine ⟨?_, ?_, ?_⟩ <;> rw [sigmoid_eq] <;> norm_num
 
+/-- the quintic `6x⁵ − 15x⁴ + 10x³` is monotone on all of ℝ (its derivative is `30x²(1−x)²`; the identity below
+    writes the difference as `(y−x)·30·∫₀¹ (t(1−t))² ds` with the integral expanded as a sum of squares) -/
+theorem quintic_mono (x y : ℝ) (h : x ≤ y) :
+    x * x * x * (3 * x * (2 * x - 5) + 10) ≤ y * y * y * (3 * y * (2 * y - 5) + 10) := by
+  have key : y * y * y * (3 * y * (2 * y - 5) + 10) - x * x * x * (3 * x * (2 * x - 5) + 10)
+      = (y - x) * (30 * ((x * (1 - x) + (y - x) * (1 - 2 * x) / 2 + (-(y - x) ^ 2) / 3) ^ 2
+          + ((y - x) * (1 - 2 * x) + (-(y - x) ^ 2)) ^ 2 / 12 + (-(y - x) ^ 2) ^ 2 / 180)) := by ring
+  have : 0 ≤ (y - x) * (30 * ((x * (1 - x) + (y - x) * (1 - 2 * x) / 2 + (-(y - x) ^ 2) / 3) ^ 2
+          + ((y - x) * (1 - 2 * x) + (-(y - x) ^ 2)) ^ 2 / 12 + (-(y - x) ^ 2) ^ 2 / 180)) := by
+    apply mul_nonneg (by linarith)
+    positivity
+  linarith
+
+/-- **sigmoid_monotone**: `_sigmoid` is monotone on all of ℝ -/
+theorem sigmoid_monotone (x y : ℝ) (h : x ≤ y) : _sigmoid x ≤ _sigmoid y := by
+  by_cases hx : x ≤ 0
+  · have : _sigmoid x = 0 := by rw [sigmoid_eq, if_pos hx]
+    rw [this]; exact (sigmoid_range y).1
+  · by_cases hy : 1 ≤ y
+    · have : _sigmoid y = 1 := by
+        rw [sigmoid_eq, if_neg (by linarith), if_pos hy]
+      rw [this]; exact (sigmoid_range x).2
+    · have hy0 : ¬ y ≤ 0 := by linarith
+      have hx1 : ¬ 1 ≤ x := by linarith
+      rw [sigmoid_eq, sigmoid_eq, if_neg hx, if_neg hx1, if_neg hy0, if_neg hy]
+      exact quintic_mono x y h
+
 /-- **muscle_gain_length_range**: the force–length curve `FL ∈ [0, 1]` for every length and every `lmin`, `lmax` -/
 theorem muscle_gain_length_range (len lmin lmax : ℝ) :
     0 ≤ muscle_gain_length len lmin lmax ∧ muscle_gain_length len lmin lmax ≤ 1 := by
@@ -263,6 +290,33 @@ theorem muscle_gain_length_range (len lmin lmax : ℝ) :
     obtain ⟨k0, k1⟩ := key (lmax - len) (lmax - 1 / 2 * (1 + lmax)) (by linarith [h1.2]) (by linarith)
     exact ⟨k0, by linarith⟩
 
+
+/-- peak force `F0` used by `muscle_gain`/`muscle_bias`: `prm[2]`, or `scale / max(mjMINVAL, acc0)` if `prm[2] < 0` -/
+noncomputable def muscleF0 (acc0 : ℝ) (prm : V10 ℝ) : ℝ := if prm.c2 < 0 then prm.c3 / max (1e-15) acc0 else prm.c2
+
+/-- **muscle_bias_nonpos**: the passive muscle force is never positive (it pulls), for every length, if the
+    peak force `F0` and `fpmax = prm[7]` are non-negative -/
+theorem muscle_bias_nonpos (len : ℝ) (lr : V2 ℝ) (acc0 : ℝ) (prm : V10 ℝ) (hF : 0 ≤ muscleF0 acc0 prm) (hp : 0 ≤ prm.c7) :
+    muscle_bias len lr acc0 prm ≤ 0 := by
+  have hm : ∀ d : ℝ, (0:ℝ) < max (1 / 1000000000000000) d := fun d => lt_of_lt_of_le (by norm_num) (le_max_left _ _)
+  have leaf2 : ∀ F X : ℝ, 0 ≤ F → -(F * prm.c7 * (1 / 2) * X * X) ≤ 0 := by
+    intro F X hF
+    have := mul_nonneg (mul_nonneg hF hp) (mul_self_nonneg X)
+    nlinarith
+  have leaf3 : ∀ F X : ℝ, 0 ≤ F → 0 ≤ X → -(F * prm.c7 * (1 / 2 + X)) ≤ 0 := by
+    intro F X hF hX
+    have := mul_nonneg (mul_nonneg hF hp) (by linarith : (0:ℝ) ≤ 1 / 2 + X)
+    linarith
+  unfold muscle_bias
+  unfold muscleF0 at hF
+  by_cases hc : prm.c2 < 0 <;>
+  · simp only [slt, sle, slit, hmul, hadd, hsub, hdiv, hneg, smax]
+    norm_num [hc] at hF ⊢
+    split_ifs with h1 h2
+    · exact le_refl _
+    · exact leaf2 _ _ hF
+    · simp only [not_le] at h1 h2
+      exact leaf3 _ _ hF (div_nonneg (by linarith) (hm _).le)
 
 /-! ## `_actuator_force`: control clamping and force limits (kernel level) -/
 
